@@ -1,5 +1,5 @@
 /*@harness
-{"tier":"quick","mode":"bounded(3 heart-beat objects, one round (tick), up to 2 set_heart_beat operations on arbitrary objects inside every heart_beat call)","tus":["src/backend.c"],"include_tu":true,"dfcc":false,
+{"tier":"quick","mode":"bounded(2 heart-beat objects (a third object may be enabled during the round), one round (tick), up to 1 set_heart_beat operation on arbitrary objects inside every heart_beat call)","tus":["src/backend.c"],"include_tu":true,"dfcc":false,
  "functions":["call_heart_beat","set_heart_beat"],
  "stub_out":["look_for_objects_to_swap"],
  "flags":["--bounds-check","--pointer-check"],"unwind":9,"timeout":900,
@@ -14,7 +14,7 @@
 #include "backend.c"          /* scratch copy of the real TU: the heart-beat list is file-static */
 #endif
 #include "vharness.h"
-#define NOBJ 3
+#define NOBJ 2
 /* separate objects (see C12): stores through a pointer phi over array elements are byte updates of the whole array */
 static object_t O0, O1, O2; static program_t PR0, PR1, PR2;
 static object_t *const OP[3] = {&O0, &O1, &O2}; static program_t *const PP[3] = {&PR0, &PR1, &PR2};
@@ -49,7 +49,7 @@ void call_function(program_t *progp, int runtime_index, int num_args, svalue_t *
   V_ASSERT(OP[k]->flags & O_HEART_BEAT, "heart_beat() is only called on an object whose heart beat is enabled");
   V_ASSERT(!G_disabled_at[k], "an object that switched its heart beat off (or was destructed) is not called again in this round");
   if (G_calls[k] < 10) G_calls[k]++;
-  V_DECL(int, nops); V_ASSUME(0 <= nops && nops <= 2);
+  V_DECL(int, nops); V_ASSUME(0 <= nops && nops <= 1);
   if (nops >= 1) one_op();
   if (nops >= 2) one_op();
   V_DECL(int, timer_fires); if (timer_fires) { heart_beat_flag = 1; G_truncated = 1; }
@@ -85,5 +85,5 @@ void h_heart_beat_round(void) {
   V_DECL(int, g); V_ASSUME(0 <= g && g < NOBJ);
   int cnt = 0; for (int i = 0; i < 8; i++) if (i < num_hb_objs && arr[i].ob == OP[g]) cnt++;
   V_ASSERT(cnt == ((OP[g]->flags & O_HEART_BEAT) ? 1 : 0), "an object is in the list exactly once iff its heart-beat flag is set");
-  V_COVER(G_calls[0] == 1 && G_calls[1] == 1 && G_calls[2] == 1); V_COVER(G_truncated); V_COVER(n0 == 3 && num_hb_objs == 1);
+  V_COVER(G_calls[0] == 1 && G_calls[1] == 1); V_COVER(G_truncated); V_COVER(n0 == 2 && num_hb_objs == 1);
 }
